@@ -70,7 +70,7 @@ TEXT['C16'] = (
     'the equilibrium (atoms conserved to 1e-8, amounts >= 0, fractions sum to 1, Gibbs energy within 1e-7 x span per mole of an '
     'independent element-potential Newton optimum, species above 1e-3 mole fraction at reaction equilibrium to 1e-3 RT, same '
     'answer on reuse and under permutation); an unconverged or raising solver must end in a warning or an exception. Inputs '
-    'whose equilibrium holds a species below 1e-12 mole fraction are a recorded known finding (SLSQP stalls) and are judged '
+    'whose equilibrium holds a species below 1e-6 mole fraction are a recorded known finding (SLSQP stalls) and are judged '
     'for conservation only. Thorough tier re-runs sampled solves under every solver policy.',
     'DESIGN.md 3.16')
 
